@@ -941,6 +941,11 @@ class GeneralSFTPFile(PrefixingLogMixin):
             def _bad(): raise createSFTPError(FX_BAD_MESSAGE, "new size is not a valid nonnegative integer")
             return defer.execute(_bad)
 
+        if size is not None:
+            # like writeChunk: close() decides whether to commit when it is called, which
+            # may be before the queued _set below has run
+            self.has_changed = True
+
         d = defer.Deferred()
         def _set(ign):
             if noisy: self.log("_set(%r) in %r" % (ign, request), level=NOISY)
